@@ -27,7 +27,7 @@ type verifC18Call struct {
 func verifC18Scenario() (recs [][]int64, all []int64, start, end, step, width int64) {
 	tier := int64(verifrt.Tier())
 	nrec := 2 + verifrt.Choose("batches", 1+verifrt.Tier())
-	step = int64(1 + verifrt.Choose("step", 2+verifrt.Tier()))
+	step = []int64{1, 2, 4, 3}[verifrt.Choose("step", 3+verifrt.Tier())] // 4 > range leaves gaps between the windows; 3 (division by 3) only in the thorough tier
 	width = verifrt.Int64("range")
 	verifrt.Assume(width >= 1 && width < 4+4*tier)
 	// realistic instants: nanoseconds far from 1970 (populateByLast compares a buffer index with a
